@@ -283,6 +283,21 @@ class Ctx:
         return code
 
 
+def concrete_name(m, sym, default):
+    """a concrete identifier for the abstract string `sym` that satisfies the string predicates a model answered with True"""
+    name = default
+    for d in m.decls():
+        n = d.name()
+        if n.startswith('strpred|') and z3.is_true(m[d]):
+            _, op, subj, pat, _ = n.split('|', 4)
+            lit = pat.strip("'\"")
+            if subj == repr(sym):
+                name = {'starts_with': lit + 'x0', 'ends_with': 'x0' + lit, 'contains': 'x' + lit + '0', 'eq': lit}.get(op, name)
+            elif subj == f'{{sym:to_uppercase({sym!r})}}' and op == 'eq':
+                name = lit.lower()
+    return name
+
+
 def main(pid, run, native=None):
     """native(ctx): optional supplement run when the symbolic part is inconclusive - it can only turn an exit 2 into an exit 1
     (a violation reproduced on the real build); it never turns anything into a pass"""
